@@ -23,13 +23,20 @@ MANIFEST = {
     "engine": "gridx",
     "technique": "designed fractional-displacement grid over a cell menu, every member judged by a float64 "
                  "brute-force lattice-image search",
-    "text": "Full product: cell menu (6 cells quick / 14 thorough, each non-orthorhombic one also in an unreduced input "
-            "form, plus two per-frame-varying stacks of 3 cells (thorough: in all 3 assignments of base points to frames), plus no cell) x base point {origin, "
+    "text": "Full product: cell menu of vlib.grids (quick subset / all, each non-orthorhombic one also in an unreduced input "
+            "form) plus (2,2,2|90,90,45) and (2,2,2|90,90,135) whose shortest lattice vector is shorter than every edge, plus "
+            "per-frame-varying stacks (3 mixed cells; 3 orthorhombic cells; 18-frame orthorhombic and 18-frame skewed stacks "
+            "X,Y,X in which consecutive frames share all cell parameters but one or two, every class in both orders; thorough: all "
+            "3 assignments of base points to frames), plus no cell) x base point {origin, "
             "fractional (0.3,0.7,0.1), +7a-5c} x displacement on the fractional grid {-2.5..2.5}^3 (step 1/2 quick = 1331, "
             "1/4 thorough = 9261 per base; exact and with a low-discrepancy jitter whose phase is VERIF_SEED) x pair shapes "
             "(forward, reversed, far pairs up to 5 cells apart, i==j, repeated, empty) x opt x periodic x {compute_distances, "
             "compute_displacements, compute_distances_t on all 9 frame pairs, find_closest_contact (per frame: atom 0 against each of the 7 index "
-            "classes mod 7 of the grid atoms, the swapped call, three 5-atom groups against a class)}. Oracle: float64 minimum "
+            "classes mod 7 of the grid atoms, the swapped call, three 5-atom groups against a class)}; plus compact-group trajectories for every skewed cell (every frame holds one "
+            "2-atom pair or 4-atom cluster with bounding-box diagonal below half the shortest edge; frames = short grid "
+            "displacements and s*v for every lattice vector v shorter than the shortest edge, which have a closer image); plus "
+            "pair-list length classes {1..9, 255, 256, 257, 300, 511..513, 767, 768, 1000, 1024, 1025}: a sub-list must give "
+            "exactly the rows of the full call. Oracle: float64 minimum "
             "over all lattice images (search range asserted sufficient after basis reduction) computed from the stored "
             "float32 data. Judged: displacement - (r2-r1) is an integer combination of that frame's cell vectors; distance = "
             "|displacement|; orthorhombic: distance = d* always; skewed: distance = d* when d* < half the smallest width of "
@@ -106,36 +113,9 @@ class Acc:
                 check, err[b], tol[b], ratio[b], where, len(bad), err.size, describe(where)))
 
 
-def _cell(name, L, A, unreduced=False):
-    v = grids.lengths_angles_to_vectors(*L, *A)
-    if not unreduced:
-        return dict(name=name, vectors=v, lengths=np.array(L, float), angles=np.array(A, float), reduced=True,
-                    ortho=all(abs(x - 90) < 1e-9 for x in A))
-    u = v.copy()
-    u[1] = v[1] + v[0]
-    u[2] = v[2] + v[0] - v[1]
-    Lu, Au = grids.vectors_to_lengths_angles(u)
-    return dict(name=name, vectors=u, lengths=Lu, angles=Au, reduced=False, ortho=False)
-
-
-def _menu():
-    m = {c["name"]: c for c in grids.cell_menu(quick=False)}
-    # strongly skewed cells whose shortest lattice vector (a-b resp. a+b) is shorter than every cell edge
-    m["g45"] = _cell("g45", (2.0, 2.0, 2.0), (90, 90, 45))
-    m["g45+unreduced"] = _cell("g45+unreduced", (2.0, 2.0, 2.0), (90, 90, 45), unreduced=True)
-    m["g135"] = _cell("g135", (2.0, 2.0, 2.0), (90, 90, 135))
-    m["g135+unreduced"] = _cell("g135+unreduced", (2.0, 2.0, 2.0), (90, 90, 135), unreduced=True)
-    # orthorhombic cells of an all-orthorhombic stack in which consecutive frames share one or two edge lengths exactly
-    for nm, L in ORTHO_SHARED.items():
-        m[nm] = _cell(nm, L, (90, 90, 90))
-    return m
-
-
-ORTHO_SHARED = {"o234": (2.0, 3.0, 4.0), "o2_36_44": (2.0, 3.6, 4.4), "o25_3_45": (2.5, 3.0, 4.5), "o26_33_4": (2.6, 3.3, 4.0),
-                "o2_3_47": (2.0, 3.0, 4.7), "o2_35_4": (2.0, 3.5, 4.0), "o27_3_4": (2.7, 3.0, 4.0)}
-# X, Y, X for every Y sharing a / b / c / ab / ac / bc with X = o234: every class in both orders, consecutive frames
-STACKS["stack_ortho_shared"] = [n for y in ("o2_36_44", "o25_3_45", "o26_33_4", "o2_3_47", "o2_35_4", "o27_3_4")
-                                for n in ("o234", y, "o234")]
+_menu = gc.extended_menu
+STACKS.update(gc.SHARED_STACKS)
+LONG_STACK_STEP = {0.5: 1.25, 0.25: 0.5}     # grid step of the 18-frame skewed stack (reference path is ~150 us per pair)
 EXTRA_SKEW = ["g45", "g45+unreduced", "g135", "g135+unreduced"]
 SHORT_DIAGONAL = ["tric_45_60_75", "tric_45_60_75+unreduced", "tric_135_100_110", "tric_135_100_110+unreduced"]
 BLOCK_SIZES = [1, 2, 3, 4, 5, 7, 8, 9, 255, 256, 257, 300, 511, 512, 513, 767, 768, 1000, 1024, 1025]
@@ -536,7 +516,8 @@ def _jobs(ctx):
             jobs.append(dict(name=n, cells=[n], rot=0, mode=mode, step=step, seed=ctx.seed))
         for sn, lst in STACKS.items():
             for rot in range(1 if quick else 3):
-                jobs.append(dict(name="%s/rot%d" % (sn, rot), cells=list(lst), rot=rot, mode=mode, step=step, seed=ctx.seed))
+                st = LONG_STACK_STEP[step] if sn == "stack_skew_shared" else step
+                jobs.append(dict(name="%s/rot%d" % (sn, rot), cells=list(lst), rot=rot, mode=mode, step=st, seed=ctx.seed))
         jobs.append(dict(name="nocell", cells=None, rot=0, mode=mode, step=step, seed=ctx.seed))
         for n in compact:
             for shape in ("pair", "cluster"):
